@@ -203,43 +203,48 @@ func (c *Config) Parent() *Config {
 
 // FlattenedKeys return a sorted flattened views of the set keys in the configuration
 func (c *Config) FlattenedKeys(opts ...Option) []string {
-	var keys []string
 	normalizedOptions := makeOptions(opts)
 
 	if normalizedOptions.pathSep == "" {
 		normalizedOptions.pathSep = "."
 	}
 
+	keys := c.flattenedKeys(normalizedOptions)
+	sort.Strings(keys)
+	return keys
+}
+
+// flattenedKeys collects the keys of c and of all its sub-configurations. All
+// levels share one set of options, so a reference that leads back into a
+// configuration that is currently being flattened is detected as a cycle.
+func (c *Config) flattenedKeys(opts *options) []string {
+	var keys []string
+
+	parentFields := opts.activeFields
+	defer func() { opts.activeFields = parentFields }()
+
 	if c.IsDict() {
 		for _, v := range c.fields.dict() {
-
-			subcfg, err := v.toConfig(normalizedOptions)
-			if err != nil {
-				ctx := v.Context()
-				p := ctx.path(normalizedOptions.pathSep)
-				keys = append(keys, p)
-			} else {
-				newKeys := subcfg.FlattenedKeys(opts...)
-				keys = append(keys, newKeys...)
-			}
+			opts.activeFields = newFieldSet(parentFields)
+			keys = appendFlattenedKeys(keys, v, opts)
 		}
 	} else if c.IsArray() {
 		for _, a := range c.fields.array() {
-			scfg, err := a.toConfig(normalizedOptions)
-
-			if err != nil {
-				ctx := a.Context()
-				p := ctx.path(normalizedOptions.pathSep)
-				keys = append(keys, p)
-			} else {
-				newKeys := scfg.FlattenedKeys(opts...)
-				keys = append(keys, newKeys...)
-			}
+			opts.activeFields = newFieldSet(parentFields)
+			keys = appendFlattenedKeys(keys, a, opts)
 		}
 	}
 
-	sort.Strings(keys)
 	return keys
+}
+
+func appendFlattenedKeys(keys []string, v value, opts *options) []string {
+	subcfg, err := v.toConfig(opts)
+	if err != nil {
+		ctx := v.Context()
+		return append(keys, ctx.path(opts.pathSep))
+	}
+	return append(keys, subcfg.flattenedKeys(opts)...)
 }
 
 func (f *fields) get(name string) (value, bool) {
